@@ -399,7 +399,8 @@ func encodeAll(rec bebop.Record) encs {
 	e.oSize = driver.Guard(func() error { e.size = rec.Size(); return nil })
 	e.oM = driver.Guard(func() error { e.marshal = rec.MarshalBebop(); return nil })
 	if !e.oSize.Panicked && e.size >= 0 && e.size < 1<<26 {
-		e.to = make([]byte, e.size)
+		// a caller-owned, reused buffer: not zeroed (0x01 is the byte a stale "true" / count / index would leave behind)
+		e.to = bytes.Repeat([]byte{0x01}, e.size)
 		e.oT = driver.Guard(func() error { e.toN = rec.MarshalBebopTo(e.to); return nil })
 	}
 	var buf bytes.Buffer
